@@ -17,7 +17,7 @@ var (
 		`(?m)^(?:[\t\s]*(?:\r?\n|\r))+`, ``,
 	})
 	// One pattern, applied once: a decoded value is never scanned again
-	regHex = regexp.MustCompile(`(name|comm|profile)=[0-9A-F]+`)
+	regHex = regexp.MustCompile(`(name|comm|profile|target)=[0-9A-F]+`)
 )
 
 type RegexReplList []RegexRepl
